@@ -102,6 +102,7 @@ type genesis struct {
 	// lookup anchors of work reports against it
 	withAncestry bool
 	sharedAuthorizers bool
+	sharedBlob        []byte // solicited by every service of the genesis state
 	permutedSets      bool
 	specialKeys       int // storage entries whose state key has a chosen second octet
 	specialIDs   int // services whose identifier comes from the pool of special magnitudes / octet patterns
@@ -231,6 +232,9 @@ func mkGenesis(t *sim.Tape) *genesis {
 		}
 		g.svcIDs = append(g.svcIDs, id)
 	}
+	if nSvc > 1 && t.Prob(1, 3, "shared_solicited_blob") {
+		g.sharedBlob = []byte("m-a-blob-several-services-solicit-" + string(t.Bytes(2, "shared_blob")))
+	}
 	for i := 0; i < nSvc; i++ {
 		id := g.svcIDs[i]
 		// the service's accumulation code
@@ -243,6 +247,7 @@ func mkGenesis(t *sim.Tape) *genesis {
 				prog.xfers = append(prog.xfers, svcXfer{dest: g.svcIDs[(i+1+t.Choose(nSvc-1, "svc_dest"))%nSvc], amt: uint64(1 + t.Choose(20, "svc_amt")), gas: uint64(2000 + 500*t.Choose(3, "svc_tgas"))})
 			}
 		}
+		prog.creates = t.Prob(1, 3, "svc_creates_services")
 		if t.Prob(1, 2, "svc_cycles_a_preimage") {
 			prog.cycle = []byte(fmt.Sprintf("cycled-preimage-of-%d-%s", id, string(t.Bytes(2, "cycle_blob"))))
 			g.solicited[id] = append(g.solicited[id], prog.cycle) // the author provides it whenever it is solicited and missing
@@ -285,6 +290,11 @@ func mkGenesis(t *sim.Tape) *genesis {
 					break
 				}
 			}
+		}
+		// one blob may be wanted by several services at once (each is served separately)
+		if g.sharedBlob != nil {
+			g.solicited[id] = append(g.solicited[id], g.sharedBlob)
+			ac.LookupDict[types.LookupMetaMapkey{Hash: h256(g.sharedBlob), Length: types.U32(len(g.sharedBlob))}] = types.TimeSlotSet{}
 		}
 		nSolicited := t.Range(1, 4, "nsolicited")
 		for k := 0; k < nSolicited; k++ {
